@@ -54,6 +54,7 @@ MUTANTS = [
     ("C08 CR LF detected only inside the current buffer", "C08", True, [(RD, "if c == '\\r' && self.peek() == b'\\n' {", "if c == '\\r' && self.begin < self.end && self.buf[self.begin] == b'\\n' {")]),
     ("C08 refill forgets to reset begin after compaction", "C08", True, [(RD, "            self.end -= self.begin;\n            self.begin = 0;\n", "            self.end -= self.begin;\n")]),
     ("C08 Interrupted retried only once", "C08", True, [(RD, "Err(e) if e.kind() == std::io::ErrorKind::Interrupted => continue,", "Err(e) if e.kind() == std::io::ErrorKind::Interrupted => break self.stdin.read(&mut self.buf[self.end..]).unwrap(),")]),
+    ("C08 Interrupted retried at most 32 times", "C08", True, [(RD, "        let bytes = loop {\n            match self.stdin.read(&mut self.buf[self.end..]) {", "        let mut attempts = 0;\n        let bytes = loop {\n            match self.stdin.read(&mut self.buf[self.end..]) {"), (RD, "Err(e) if e.kind() == std::io::ErrorKind::Interrupted => continue,", "Err(e) if e.kind() == std::io::ErrorKind::Interrupted && attempts < 32 => attempts += 1,")]),
     ("C08 harmless: buffer size 4 KiB", "C08", False, [(RD, "const BUF_SIZE: usize = 1 << 16;", "const BUF_SIZE: usize = 1 << 12;")]),
     ("C08 harmless: refill asks for at most 7 bytes", "C08", False, [(RD, "self.stdin.read(&mut self.buf[self.end..])", "self.stdin.read(&mut self.buf[self.end..(self.end + 7)])")]),
     # ---- C09
@@ -78,6 +79,7 @@ MUTANTS = [
     ("C03 split_at compares with >=", "C03", True, [(TN, "if pos > root", "if pos >= root")]),
     ("C03 update called with swapped children", "C03", True, [(TN, "        self.item.update(\n            self.left.as_ref().map(|x| &x.item),\n            self.right.as_ref().map(|x| &x.item),", "        self.item.update(\n            self.right.as_ref().map(|x| &x.item),\n            self.left.as_ref().map(|x| &x.item),")]),
     ("C03 remove_at merges in the wrong order", "C03", True, [(TR, "self.root = TreapNode::merge(t1, t3);", "self.root = TreapNode::merge(t3, t1);")]),
+    ("C03 first() keeps its path in a fixed 64-entry array", "C03", True, [(TR, "        let mut node = self.root.as_mut()?;\n        while node.left.is_some() {\n            node.push();", "        let mut node = self.root.as_mut()?;\n        let mut path = [0u32; 64];\n        let mut depth = 0;\n        while node.left.is_some() {\n            path[depth] = node.priority;\n            depth += 1;\n            node.push();")]),
     ("C03 harmless: tie-break <= in merge", "C03", False, [(TN, "left.as_ref().unwrap().priority < right.as_ref().unwrap().priority", "left.as_ref().unwrap().priority <= right.as_ref().unwrap().priority")]),
     ("C03 harmless: max-heap instead of min-heap", "C03", False, [(TN, "left.as_ref().unwrap().priority < right.as_ref().unwrap().priority", "left.as_ref().unwrap().priority > right.as_ref().unwrap().priority")]),
     # ---- C16
